@@ -76,6 +76,7 @@ func fullStruct(m *interp.Machine, t *types.Named, fields map[string]interp.Valu
 func newRegWorld(prog *load.Program, specs []importSpec, moqPkg string) (*regWorld, error) {
 	m := interp.New(prog)
 	tmpl.InstallTypesModels(m, prog)
+	tmpl.RemoveVarModels(m)
 	errModels(m)
 	// identifier tokens never equal ".", "_" or ""
 	m.Distinct = func(tok, lit string) bool { return lit == "." || lit == "_" || lit == "" }
